@@ -53,7 +53,14 @@ def ingest_anatomy(ctx: Any) -> Dict[str, Any]:
     for k in ('notify', 'complete', 'add', 'remove', 'mark'):
         if not an[k]:
             raise AnalysisError(f'anchor vanished: no `{k}` call in {f.where()}')
-    an['updates'] = [n for c in an['notify'] for n in _arg_names(c)[-1:]]
+    an['updates'] = []
+    for c in an['notify']:
+        last = c.args[-1] if c.args else None
+        if isinstance(last, ast.Name):
+            an['updates'].append(last.id)
+        elif last is not None:
+            # the collection may be wrapped on its way to the listeners: list(updates.values()), tuple(updates), ...
+            an['updates'] += [x.id for x in ast.walk(last) if isinstance(x, ast.Name) and x.id not in ('list', 'tuple', 'sorted', 'set')][:1]
     an['adds'] = [n for c in an['add'] for n in _arg_names(c)]
     an['removes'] = [n for c in an['remove'] for n in _arg_names(c)]
     an['unique'] = [n for c in an['mark'] for n in _arg_names(c)[:1]]
@@ -81,6 +88,9 @@ def previous_obligations(ctx: Any, R: str) -> List[Ob]:
     loop = an['loop']
     upd = set(an['updates'])
     obs: List[Ob] = []
+    keyed = [st for st in ast.walk(loop) if isinstance(st, ast.Assign) and isinstance(st.targets[0], ast.Subscript) and isinstance(st.targets[0].value, ast.Name) and st.targets[0].value.id in upd]
+    for st in keyed:
+        obs.append(ob(R, f, st, 'every record of the datagram yields its own (new, previous) pair, in datagram order: the pairs are appended to a list', False, f'pairs are stored under a key (`{norm(st.targets[0].slice)}`): record identity ignores the TTL, so a goodbye and a fresh copy of one record in the same datagram collapse into one pair'))
     for c in ast.walk(loop):
         if isinstance(c, ast.Call) and call_name(c) in ('append',) and isinstance(c.func, ast.Attribute) and isinstance(c.func.value, ast.Name) and c.func.value.id in upd:
             arg = c.args[0] if c.args else None
@@ -384,6 +394,19 @@ def refresh_obligations(ctx: Any, R: str) -> List[Ob]:
                     good = False
                     why = f'`{norm(a)}` is not {w}'
         obs.append(ob(R, f, rc_, 'a refresh gives the cached entry the creation time and the (floored) TTL of the record just received', good, why))
+    # --- every record that carries the cache-flush bit feeds the flush set, whatever its TTL (a goodbye with the bit set
+    # still asserts the rrset; RFC 6762 10.2) -- decision table over (unique, expired)
+    uq = set(an['unique'])
+    head0 = next(n for n in cfg0.nodes if n.kind == 'for' and n.ast is loop)
+
+    def eff_u(node: Any, evl: Any) -> List[Any]:
+        return ['FLUSHSET' for c in fd.node_calls(node, evl) if call_name(c) in ('add', 'append') and isinstance(c.func, ast.Attribute) and isinstance(c.func.value, ast.Name) and c.func.value.id in uq]
+
+    for uniq in (True, False):
+        for exp in (True, False):
+            ocu, _ = fd.run_paths(ctx.prog, f.module, cfg0, {'.unique': uniq, '.is_expired()': exp, '.ttl': 0 if exp else 120, '.type': 1}, eff_u, start=head0, stop=lambda n: n is head0, loop_bound=1, for_iter=lambda n, e: True)
+            got = {('FLUSHSET' in t) for t in ocu}
+            obs.append(ob(R, f, f'record with cache-flush bit={uniq}, withdrawn (TTL 0)={exp}', f'its (name, type, class) is {"" if uniq else "not "}put into the flush set', got == {uniq}, f'put into the flush set on {got}'))
     # --- the floor is decided before anything in the iteration takes the record (or its lifetime) anywhere else
     tests = [n for n in cfg0.nodes if n.kind == 'test' and cfg0.dominates(n, fnode) and loop in n.in_loop and any(lab is True and (s is fnode or cfg0.dominates(s, fnode)) for s, lab in n.succ)]
     if not tests:
